@@ -87,6 +87,39 @@ def gauss_target_vec():
     normal(z[0], math.sqrt(1.0 / 3.0)) @ "obs"
 
 
+class _NormalScript:
+    """double for adev.normal (the noise source of normal_reparam): returns the scripted standard-normal values in the SHAPE THE
+    CODE ASKS FOR (one independent value per requested coordinate, as the real sampler would) and logs that shape."""
+
+    def __init__(self, vals):
+        self.vals = np.asarray(vals, dtype=np.float32).reshape(-1)
+        self.shapes = []
+
+    def sample(self, loc, scale, **kw):
+        shape = tuple(jnp.broadcast_shapes(jnp.shape(loc), jnp.shape(scale)))
+        n = int(np.prod(shape)) if shape else 1
+        self.shapes.append(shape)
+        return jnp.asarray(self.vals[:n]).reshape(shape) + 0.0 * (jnp.asarray(loc) + jnp.asarray(scale))
+
+    def logpdf(self, *a, **k):
+        return D.normal.logpdf(*a, **k)
+
+
+nrep = adev.normal_reparam        # already a Distribution (usable with @ inside @gen)
+
+
+@gen
+def gauss_target2n():
+    z = normal(jnp.zeros(2), 1.0) @ "x"
+    normal(z[0] + 0.5 * z[1], math.sqrt(1.0 / 3.0)) @ "obs"
+
+
+@gen
+def shared_scale_family(constraint, params):
+    """a reparameterised family with a VECTOR mean and ONE shared scalar scale"""
+    nrep(params["m"], jnp.exp(params["log_s"])) @ "x"
+
+
 @gen
 def gauss_target2():
     z = D.multivariate_normal(jnp.zeros(2), jnp.eye(2)) @ "x"
@@ -225,6 +258,36 @@ def run(tier, argv):
                             chk.violation(ck, f"objective {v} for noise {eps2}, expected log p(y, mean + L eps) - log q = {logp - logq}", {})
                     except Exception as ex:
                         chk.violation(ck, f"raised {type(ex).__name__}: {str(ex).splitlines()[0][:140] if str(ex) else ''}", {})
+            # normal_reparam with a vector mean and one shared scalar scale on a target that couples the coordinates: one
+            # independent noise value per coordinate, objective = log p(y, m + s eps) - log q(m + s eps)
+            if yf == 1.0:
+                mvec, sc = np.array([0.2, -0.4]), 0.7
+                E3 = elbo_factory(gauss_target2n, shared_scale_family, cons)
+                saved_normal = adev.normal
+                try:
+                    for eps2 in ((0.0, 0.0), (1.0, -0.5), (-1.5, 2.0), (0.5, 0.25)):
+                        ck = f"elbo-gauss-shared-scale|eps={eps2}"
+                        chk.case(ck)
+                        chk.validated(1)
+                        dbl = _NormalScript(eps2)
+                        adev.normal = dbl
+                        z = mvec + sc * np.asarray(eps2)
+                        logp = -0.5 * float(z @ z) - math.log(2 * math.pi) + (-0.5 * math.log(2 * math.pi / 3.0) - 1.5 * (yf - z[0] - 0.5 * z[1]) ** 2)
+                        logq = -0.5 * float(np.dot(eps2, eps2)) - 2 * math.log(sc) - math.log(2 * math.pi)
+                        try:
+                            pr = {"m": jnp.asarray(mvec, dtype=jnp.float32), "log_s": jnp.asarray(math.log(sc), dtype=jnp.float32)}
+                            v = float(E3.estimate(pr))
+                            bad = []
+                            if abs(v - (logp - logq)) > 2e-4:
+                                bad.append(f"objective {v} for noise {eps2}, expected log p(y, m + s eps) - log q = {logp - logq}")
+                            if dbl.shapes and any(sh != (2,) for sh in dbl.shapes):
+                                bad.append(f"noise was requested with shape(s) {dbl.shapes}: not one independent standard normal per coordinate")
+                            if bad:
+                                chk.violation(ck, "; ".join(bad), {})
+                        except Exception as ex:
+                            chk.violation(ck, f"raised {type(ex).__name__}: {str(ex).splitlines()[0][:140] if str(ex) else ''}", {})
+                finally:
+                    adev.normal = saved_normal
             # away from the posterior the expectation lies below log p(x): seeded mean over real noise
             adev.multivariate_normal = saved[1]
             E = elbo_factory(gauss_target_vec, mean_field_normal_family(1, "reparam"), cons)
